@@ -568,4 +568,34 @@ theorem mul_no_zeroPower (debug : Bool) (a b : Compound) (n : Int) (l r : Rat) (
               exact hz.nz e.1 e.2 (AMap.get?_of_mem hz.sorted he)
             simp [hany]
 
+/-- Without debug assertions the zero-power outcome does not exist. -/
+theorem mul_release_no_zeroPower (a b : Compound) (n : Int) (l r : Rat) :
+    Compound.mul false a b n l r ≠ .error .zeroPower := by
+  cases a with
+  | nil => simp [Compound.mul]
+  | cons a0 as =>
+    cases b with
+    | nil => simp [Compound.mul]
+    | cons b0 bs =>
+      rw [mul_unfold false _ _ n l r rfl rfl]
+      split
+      · rename_i e he
+        intro hh
+        have := scaleIn_err he
+        simp only [Except.error.injEq] at hh
+        rw [hh] at this; cases this
+      · split
+        · rename_i e he
+          intro hh
+          have := scaleIn_err he
+          simp only [Except.error.injEq] at hh
+          rw [hh] at this; cases this
+        · split
+          · rename_i e he
+            intro hh
+            have := reconstruct_err he
+            simp only [Except.error.injEq] at hh
+            rw [hh] at this; cases this
+          · simp
+
 end Anything
